@@ -240,6 +240,30 @@ Definition scope_within (p : bytes) (k : read_kind) (b : bytes) : bool :=
 Definition protects_res (cs : bool) (f : bytes) (ru : rule) : bool :=
   existsb (under cs f) (r_resources ru) && negb (existsb (under cs f) (r_exclude ru)).
 
+(* a site given as an association list directive name -> middleware *)
+Fixpoint site_of (l : list (bytes * mw)) : site :=
+  fun n => match l with
+           | [] => None
+           | (a, m) :: r => if beq a n then Some m else site_of r n
+           end.
+Definition role_eqb (a b : role) : bool :=
+  match a, b with
+  | RWriter, RWriter | RAuth, RAuth | RInternal, RInternal | RContent, RContent | RNeutral, RNeutral => true
+  | _, _ => false
+  end.
+Definition wf_list (l : list (bytes * mw)) : bool :=
+  forallb (fun e => role_eqb (kind (snd e)) (role_of (fst e))) l.
+
+(* a site used by the non-vacuity examples *)
+Definition example_site : list (bytes * mw) :=
+  [ (bs "rewrite"%string, MWriter (fun p => if beq p (bs "/alias"%string) then bs "/secret/f.txt"%string else p));
+    (bs "ext"%string, MWriter (fun p => p));
+    (bs "gzip"%string, MNeutral);
+    (bs "basicauth"%string, MAuth [ {| r_resources := [bs "/secret"%string];
+                                       r_exclude := [bs "/secret/pub"%string]; r_creds_ok := false |} ]);
+    (bs "internal"%string, MInternal [bs "/int"%string]);
+    (bs "browse"%string, MContent (fun p => ends_with_slash p) (fun _ w => w)) ].
+
 (* ---- the statement of the chain theorem ---- *)
 Definition chain_of (s : site) : list mw := stack s gen_directives.
 Definition writers_rooted (stk : list mw) : Prop :=
